@@ -418,6 +418,9 @@ def check(eng, res):
     if G is None:
         return
     check_growth(eng, res, G)
+    from ..memo import memo_rules
+
+    memo_rules(eng, res, only_classes=["MolGen", "Distribution"])
     res.floor("R-STOP-TEST", sum(1 for o in res.obligations if o.rule == "R-STOP-TEST"), 4)
     res.floor("R-ONE-DRAW", sum(1 for o in res.obligations if o.rule == "R-ONE-DRAW"), 6)
     from ..fresh import fresh_results
